@@ -115,6 +115,9 @@ func (c *Ctx) addSample(s any, max int) {
 func (c *Ctx) sim(binary string, sc *Scenario) *Result {
 	r := RunSim(binary, sc, c.Work)
 	atomic.AddInt64(&c.ChildRuns, 1)
+	if r.WallS > 3 && os.Getenv("VERIF_SLOW") != "" {
+		fmt.Fprintf(os.Stderr, "slow child: %.1fs ticks=%d exit=%d budget=%v note=%s\n", r.WallS, r.Ticks, r.Exit, r.Budget, sc.Note)
+	}
 	atomic.AddInt64(&c.TotalTicks, r.Ticks)
 	c.mu.Lock()
 	if r.Ticks > c.MaxTicks {
